@@ -33,5 +33,6 @@ int vh_ops_header(int argc, char **argv);
 int vh_ops_stream(int argc, char **argv);
 int vh_ops_reader(int argc, char **argv);
 int vh_ops_tree(int argc, char **argv);
+int vh_ops_tool(int argc, char **argv);
 
 #endif
